@@ -22,6 +22,10 @@ CODECS = ("direct", "netcdf", "zarr")
 
 
 def _cf_roundtrip(ds: xr.Dataset) -> xr.Dataset:
+    # dask-backed variables are computed first (through whatever scheduler is installed) and then written;
+    # writing them through dask.array.store would put InMemoryDataStore's *uninitialised* target arrays
+    # into the task graph as literals, i.e. garbage bytes into the task labels (breaks replay)
+    ds = ds.load()
     store = InMemoryDataStore()
     writer = ArrayWriter()
     ds.dump_to_store(store, writer=writer, encoder=conventions.cf_encoder)
